@@ -139,8 +139,8 @@ func appendedTypes(a ssa.Value) []string {
 }
 
 func runC25(c *engine.Ctx) {
-	r1 := c.Rule("R1", "transactions and sends issued from a manager's run loop reserve nothing (only zero-size operations / literal 0)", 8)
-	r2 := c.Rule("R2", "network operations are not reachable from the managers' run loops", 3)
+	r1 := c.Rule("R1", "transactions and sends issued from a manager's run loop reserve nothing (only zero-size operations / literal 0)", 3)
+	r2 := c.Rule("R2", "network operations are not reachable from the managers' run loops", 1)
 
 	pos, ok := positiveOps(c)
 	if !ok {
